@@ -36,7 +36,9 @@ def parse_logs():
                 cur["confirmed"] = False
             m = re.match(r"(C\d\d): exit (\d+), (\d+) VIOLATION line\(s\), (\d+) s \| ?(.*)", line)
             if m:
-                cur["checks"][m.group(1)] = {"exit": int(m.group(2)), "violations": int(m.group(3)), "seconds": int(m.group(4)), "first": m.group(5).strip()[:400]}
+                prev = cur["checks"].get(m.group(1))
+                cur["checks"][m.group(1)] = {"exit": int(m.group(2)), "violations": int(m.group(3)), "seconds": int(m.group(4)), "first": m.group(5).strip()[:400],
+                                             "missed_before": bool(prev and (prev["exit"] == 0 or prev.get("missed_before")))}
     return out
 
 
@@ -73,7 +75,8 @@ def main():
         caught = {}
         for chk, r in sorted(lg["checks"].items()):
             if r["exit"] == 1:
-                caught[chk] = "yes: %d VIOLATION lines; first: %s" % (r["violations"], r["first"])
+                caught[chk] = ("MISSED by the quick tier at first (exit 0); after the strengthening described in `remark`: " if r.get("missed_before") else "") + \
+                    "yes: %d VIOLATION lines; first: %s" % (r["violations"], r["first"])
             elif r["exit"] == 0:
                 caught[chk] = "MISSED by the quick tier (exit 0)"
             else:
